@@ -761,6 +761,9 @@ func (cg *ConsumerGroup) run() {
 		// waiting to receive on the unbuffered error channel.
 		select {
 		case <-cg.done:
+			// the member ID is kept across a RebalanceInProgress error, leave
+			// the group so the coordinator does not wait for this member.
+			_ = cg.leaveGroup(memberID)
 			return
 		case cg.errs <- err:
 		}
